@@ -6,6 +6,10 @@ HOOK_COMMITS = ["ca6d3b8", "a1d2aab"]
 
 # id -> (technique, level text, level note, design ref)
 CLAIMED = {
+ "C04": ("explicit-state search over command histories (state = file bytes): all command sequences up to depth 3/4 over a 72-command alphabet from 12 initial files, plus all pause tick sequences; every transition compared with an abstract record-list model",
+         "Every transition of the explored history graph executes the real command on a real file (first command and a fixed stride through the complete CLI, the rest through the command structs on the real context) and is compared with the abstract model applied to the reference reading of the file before: success/failure, failure leaves the bytes untouched, success yields exactly the predicted records (values, summaries, order, chronological position of new records) under the reference parser, and klog re-reads its own output.",
+         "Trusted: the abstract command model (cmdmodel.go) and specmodel. Depth 3 (quick) / 4 (thorough); fixed clock.",
+         "DESIGN.md §4 C04"),
  "C12": ("bounded exhaustive enumeration of all ordered pairs/triples of calendar-boundary dates x aggregations x fill/diff x filters; report rows read back and compared with independent calendar bucketing (subset-sum identification of records)",
          "Each record carries a distinct power-of-two total, so a row's total identifies exactly which records landed in it. For every file x aggregation x flag combination the rows must be exactly the expected periods in chronological order, each with the total/should/diff of exactly the records whose date lies in that period by the independent calendar, filled rows empty, the grand total equal to the row sum and to `klog total`; `klog today` must split the same total into current and other records (with and without --now).",
          "Trusted: specmodel calendar; the report table layout (fixed label columns, '=' ruler) used for reading rows back. `--fill` only for spans <= 800 days.",
